@@ -56,9 +56,10 @@ def model(fam, adds, post, fix, invariants, *, timeout=900, workers=4, br=1, aft
 
 
 def gen(fam, adds, post, *, simulate=None, depth=None, seed=None, timeout=900, workers=4, br=1, aftererr=1, fix=None, limit=None):
-    """Enumerate (or sample with -simulate) the maximal call sequences of one family; predictions = the model as coded."""
+    """Enumerate (or sample with -simulate) the maximal call sequences of one family; predictions = the model of the code as it is
+    now in /repo, i.e. with the repairs of D5 / D15 / D7 (which were applied there) switched on."""
     name = "gen_%s_%d_%d.cfg" % (fam, adds, post)
-    run = _tlc(name, cfg_text(consts(fam, adds, post, fix or AS_CODED, br, aftererr), ["Emit"]),
+    run = _tlc(name, cfg_text(consts(fam, adds, post, fix or REPAIRED, br, aftererr), ["Emit"]),
                workers=workers, timeout=timeout, simulate=simulate, depth=depth, seed=seed)
     vlib.tlc_must_pass(run, "case generation %s" % fam)
     seen, out = set(), []
